@@ -11,7 +11,7 @@ use std::path::{Path, PathBuf};
 use std::process::{Command, ExitStatus, Stdio};
 use std::time::{Duration, Instant};
 
-pub const SUPERVISED: &[&str] = &["C04", "C08", "C12", "C13", "C19"];
+pub const SUPERVISED: &[&str] = &["C04", "C08", "C12", "C13", "C15", "C19"];
 
 /// (target, build mode) pairs: `asan` = AddressSanitizer + debug assertions,
 /// `asanrel` = AddressSanitizer without debug assertions (as shipped).
